@@ -45,10 +45,14 @@ P = {
                 runs=[dict(cmd="c26", quick=80, thorough=8000, shards_thorough=8)], vm_k=4),
     "C27": dict(theorems=["Properties/C27.v"],
                 runs=[dict(cmd="c27", quick=80, thorough=8000, shards_thorough=8)], vm_k=4),
+    "C16": dict(theorems=["Properties/C16.v"],
+                runs=[dict(cmd="c16", quick=6, thorough=400, shards_thorough=8)], vm_k=4),
     "C17": dict(theorems=["Properties/C17.v"],
                 runs=[dict(cmd="c17", quick=9, thorough=600, shards_thorough=8)], vm_k=3),
     "C18": dict(theorems=["Properties/C18.v"],
                 runs=[dict(cmd="c18", quick=30, thorough=1500, shards_thorough=8)], vm_k=12),
+    "C10": dict(theorems=["Properties/C10.v"], runs=[dict(cmd="c10", quick=8, thorough=40, shards_thorough=8)], vm_k=4),
+    "C29": dict(theorems=["Properties/C29.v"], runs=[dict(cmd="c29", quick=8, thorough=60, shards_thorough=8)], vm_k=4),
     "C12": dict(theorems=["Properties/C12.v"],
                 runs=[dict(cmd="c12", quick=6000, thorough=240000, shards_thorough=4)], vm_k=44),
     "C24": dict(theorems=["Properties/C24.v"],
@@ -153,12 +157,23 @@ META = {
     "C27": dict(text="Theorems: an accepted transaction paid in base coin adds gas price x (type price + (payload+service bytes) x byte price) to the reward pool, less the ticker fee of a coin creation which goes from the reward pool to the zero address; a rejected one adds at most the failed-transaction price; type prices per table entry (Multisend base + delta x (n-1), ticker by length). " + LM + "Monitor: reward-pool growth per accepted transaction against the price table.",
                 note=LN + "Custom-coin commission (pool route vs reserve route) and a price table denominated in a custom coin are exercised at node level only (c01/c07 histories), not modelled.",
                 technique="Coq proof (effect-list algebra) + differential correspondence on the real node + price-table monitor"),
+    "C16": dict(text="Theorems for arbitrary positive periods (both chain ids positive; testnet values regenerated from the source incl. the LockStake period). Every Unbond, MoveStake, Lock, candidate removal and byzantine unbonding creates funds of exactly the leaving value (byzantine: floor 95 %), due at exactly h+UnbondPeriod, h+MovePeriod or the Lock's due block. No step other than the BeginBlock of a fund's own due height removes or pays it. Along histories with consecutive heights no fund is ever overdue, each is paid by exactly that BeginBlock, and only a byzantine slash may lower its value. MoveStake is accepted only towards an existing candidate; a matured move reaches its existing target candidate, or, if the target was removed in flight, is unbonded for one more unbond period; it is never credited to a balance at its maturity; no step panics. Unbond is rejected with 416 while LockStakeUntilBlock > block, changing nothing but the failed-transaction fee. The model is run against the real node per transaction and per block (codes, created funds, matured funds and what happened to each, staked totals).",
+                note=TB + "MoveStake of a locked stake is accepted by design (the lock is per address, the moved coins stay blocked). Pending updates are not observable inside a block: wildcard, with end-of-block totals. Delegate's IsDelegatorStakeAllowed verdict is an input. Base gas coin only. Found and repaired with this check: 879f26e, 4f543a9, c9a3e76.",
+                technique="Coq proof (effect algebra, induction over histories with the invariant due > height, lia) + regenerated constants + differential correspondence on the real node + monitors"),
     "C17": dict(text="Theorems over unbounded Z for every candidate list, stake vector and bip oracle: the selection is at most 64, all online with >=1000 BIP, non-increasing, a sub-multiset, and leaves no eligible candidate out unless all 64 seats hold at least its stake (equal stakes: larger ID first); power = max 1 floor(stake*10^8/total), monotone, <=10^8, division never panics; exactly the non-validators ranked beyond 100 are deleted and every stake and update becomes a frozen fund of equal value due at height+UnbondPeriod; with 1000 full slots an update replaces the first minimum-bip slot iff it is not smaller, the loser is kicked with its full value, nothing is lost per (owner, coin), totalBipStake = sum of slot bips, slots <= 1000, losers never exceed anyone who stays. The model is run against the real node for every updateValidators (genesis import + InitChain, period blocks, validator drops).",
                 note=TB + "Custom-coin bip values enter as the coinsCache pair (B, V) computed with the real formula package. Holes in the slot array (after unbonds) are covered by the theorems but not generated by the harness. Found and repaired with this check: c13a3df (candidates removed at genesis import were frozen into the past).",
                 technique="Coq proof (stable insertion sort, Permutation/StronglySorted, induction over slots and updates, lia) + regenerated constants + differential correspondence on the real node + monitors"),
     "C18": dict(text="Theorems over Z for every vote history and every stake/fund list: the 24-bit window holds exactly the misses of the last 24 heights; on the first block with more than 12 of 24 misses the validator is dropped, its candidate set offline, and jailed until h+JailPeriod iff the block is not a grace block, otherwise nothing happens; SetCandidateOnline is rejected exactly while block <= JailedUntil; the byzantine slash is the rounded-up 5 % (kept part floor(95v/100), fund + slash = v, due h+UnbondPeriod, stake 0), frozen funds of the candidate in [h, h+UnbondPeriod] likewise, all others untouched, total-slashed grows by the base-coin slashes plus the oracle sale returns; evidence against unknown/offline/non-validator addresses changes nothing; a second piece of evidence (same or later block) against the now offline candidate changes nothing, and the punished validator is never re-admitted by that block's validator update. The model is run against the real node: vote histories, switch-on attempts and every evidence block.",
                 note=TB + "Grace bit, validator-list membership and the sale-return oracle are inputs observed or replayed (formula.CalculateSaleReturn) by the harness. Found and repaired with this check: b9d9852 (punished candidate stayed online: duplicate evidence slashed twice, pending delegations kept the validator in the set). Pending stake updates are not slashed (they are not 'stakes' in the property's vocabulary).",
                 technique="Coq proof (induction over vote histories with a sliding-window invariant, lia over floor division) + regenerated constants + differential correspondence on the real node + monitors"),
+    "C10": dict(
+        text="Theorem on a three-store write-list model (events db, state db, appdb) whose write order and guards are regenerated from Blockchain.Commit, State.Commit, tree.Commit, CommitEvents and every AppDB.Save*: for every history, every block and EVERY crash position k within the Commit of that block, the restarted node reports a height the consensus engine can replay from, re-executing the resent block(s) reproduces the app hash, and all later observations (responses, hashes, every appdb getter, stored events) equal the uncrashed node's (C10_for_this_code, for the code as it is now: appdb records in one atomic batch, fix ba5358b). Kept for the record: the unbatched variant is refuted right after the height write (C10_unbatched_refuted) and recoverable exactly up to it (C10_crash_recoverable_partial, tight). Node level: all three databases are wrapped; after every single write of Commit the stores are copied, a fresh node is started on the copy, Info + resend, and the continuation is compared with the uncrashed node; the logged write sequence is compared with the model's.",
+        note=TB + "PARTIAL: caches of the state modules are not modelled (the C09 assumption). KNOWN FINDING c10-restart-after-initchain: InitChain computes the initial validator set after committing the genesis state, so a process restarted between InitChain and the first Commit executes block 1 on a different state. tm-db Set/batch atomicity and Tendermint's resend rule are trusted. Found and repaired with this check: ba5358b.",
+        technique="Coq proof (prefix-replay simulation over the write list of three stores) + regenerated write order and guards + crash-injection differential on the real node"),
+    "C29": dict(
+        text="Theorems: two nodes that committed the same blocks - with ANY restarts in between - produce identical snapshots (appdb disk records in the code's order + tree export); a node restored from a snapshot reports the producer's height and app hash; from then on it is observationally equal (responses, hashes, every appdb getter) to the producer for every continuation (simulation relation: the restored node has an empty events db and a single tree version). Tie: snapshot_records / restore_records / snapshot_reads_disk regenerated from snapshots.go. Node level: real cosmos-sdk snapshot store; producer A, producer B restarted at random heights (chunk bytes must be identical), restored node R driven through OfferSnapshot / ApplySnapshotChunk, then the same continuation on A and R: Info, responses, hashes, getters, exports, appdb bytes.",
+        note=TB + "IAVL export/import, zlib, protobuf and chunking are trusted and exercised. An emission of exactly 0 is excluded (empty record is skipped by Snapshot). The events db is not part of a snapshot: older events are absent on the restored node.",
+        technique="Coq proof (disk determinism under restarts via the C09 coherence invariant; simulation) + regenerated snapshot record lists + real snapshot-store differential"),
     "C12": dict(
         text="Theorems over unbounded Z, every crr 10..100: the exact curve values (largest integers satisfying "
              "(y+s)^100 r^c <= (r+d)^c s^100 etc., computed by a verified bisection) are >= 0, <= reserve, monotone in the "
